@@ -89,6 +89,10 @@ def run(ctx):
             n, dis, _ = core.compare_construct(flat, MASK[ver], ctx.tally)
             for v, s, mo, io_ in dis:
                 ctx.disagree("model-vs-code:v%s:observables" % v, s, mo[:300], io_[:300])
+    from .. import conc
+    pk = [(v, x) for v, vs in groups[:: max(1, len(groups) // 20)] for x in vs[:3]]
+    conc.pickle_across(ctx, pk, "spellings")
+    conc.flag_variants(ctx, [["C", v, x] for v, x in pk[:90]], "spellings")
     # the relation itself on the real code
     for ver, vs in groups:
         o0, e0 = obs.construct(ver, vs[0])
